@@ -37,7 +37,7 @@ TInit ==
   /\ gh = [succ |-> [h \in H |-> 0], seen |-> [h \in H |-> 0], deldone |-> {}, early |-> FALSE,
            touched |-> FALSE, resumed |-> [h \in H |-> 0], badinv |-> "none", foreignlost |-> FALSE,
            reverted |-> FALSE, leftunmatched |-> FALSE, staleview |-> FALSE,
-           ownrv |-> 0, owntime |-> 0, blindwrite |-> FALSE]
+           ownrv |-> 0, owntime |-> 0, blindwrite |-> FALSE, cseen |-> [h \in H |-> 0], f8 |-> FALSE]
 
 Ev(e) == l <= Len(T) /\ E.ev = e /\ E.t = now /\ l' = l + 1 /\ UNCHANGED tid
 Keep == UNCHANGED <<tid, l>>
@@ -87,7 +87,8 @@ FirstBad == IF ~InvokeGoverned THEN "InvokeGoverned" ELSE IF ~InvokeCauseOk THEN
 TStep == TEdit \/ TDelete \/ TFin \/ TDeliver \/ TBegin \/ TInv \/ TMerge \/ TJson \/ TEnd \/ TKill \/ TStop \/ TDown
          \/ TList \/ TQuiet \/ Silent \/ Advance
 \* which known family excuses a final state that is not converged (reported as KNOWN-FINDING by the runner)
-Excuse == IF Converged \/ ~up \/ pc \in {"sleep", "cwait"} THEN "none"
+Excuse == IF ~up \/ pc \in {"sleep", "cwait"} THEN "none"
+          ELSE IF Converged THEN (IF Family_F8 THEN "F8" ELSE "none")
           ELSE IF Family_F20 THEN "F20" ELSE IF Family_F22 THEN "F22" ELSE IF Family_F21 THEN "F21"
           ELSE IF Family_F31 THEN "F31" ELSE "unconverged"
 TNext == /\ TStep /\ conf' = conf /\ bad' = (IF bad # "none" THEN bad ELSE FirstBad')
